@@ -87,6 +87,14 @@ theorem core_afterInput (cfg args k0 o) : (afterInput cfg args k0 s o).core = (a
 theorem core_afterOutput (al n o) : (afterOutput al n s o).core = (afterOutput al n s' o).core := by
   unfold afterOutput
   split <;> exact core_write h _ _
+theorem core_doSetEnabled (b : Bool) : (doSetEnabled s b).core = (doSetEnabled s' b).core := by
+  unfold doSetEnabled
+  split
+  · rw [core_eq_iff] at h ⊢; obtain ⟨_, h2, h3, h4, h5, h6, h7, h8, h9, h10, h11⟩ := h
+    exact ⟨rfl, h2, h3, h4, h5, h6, h7, h8, h9, h10, h11⟩
+  · have := core_doDiscard h
+    rw [core_eq_iff] at this ⊢; obtain ⟨_, h2, h3, h4, h5, h6, h7, h8, h9, h10, h11⟩ := this
+    exact ⟨rfl, h2, h3, h4, h5, h6, h7, h8, h9, h10, h11⟩
 theorem core_doPlayData (key) : doPlayData s key = doPlayData s' key := by
   rw [core_eq_iff] at h
   unfold doPlayData
@@ -101,6 +109,7 @@ theorem exec_core (p : Prog) : ∀ s s' : St, s.core = s'.core →
   | discard k ih => intro s s' h; rw [exec, exec]; exact ih _ _ (core_doDiscard h)
   | force k ih => intro s s' h; rw [exec, exec]; exact ih _ _ (core_doForce h)
   | recordData key v k ih => intro s s' h; rw [exec, exec]; exact ih _ _ (core_doRecordData h key v)
+  | setEnabled b k ih => intro s s' h; rw [exec, exec]; exact ih _ _ (core_doSetEnabled h b)
   | playData key k ih => intro s s' h; rw [exec, exec, core_doPlayData h]; exact ih _ _ _ h
   | callIn cfg args body k ihb ihk =>
     intro s s' h
@@ -307,8 +316,8 @@ theorem runPlay_core (ao : AliasOracle) (cfg : OpCfg) (id : Nat) (p : Prog) (s s
       | exc t => simp only; split <;> exact ⟨rfl, hfin⟩
 
 /-- a replay leaves the core of an idle recorder as it found it -/
-theorem runPlay_restores_core (ao : AliasOracle) (cfg : OpCfg) (s : St) (id : Nat) (p : Prog) (h : s.Idle) :
-    (runPlay ao cfg s id p).1.core = s.core := by
+theorem runPlay_restores_core (ao : AliasOracle) (cfg : OpCfg) (s : St) (id : Nat) (p : Prog) (h : s.Idle)
+    (hns : p.NoSwitch) : (runPlay ao cfg s id p).1.core = s.core := by
   obtain ⟨⟨i1, i2, i3, i4, i5, i6⟩, _, hstore, hen⟩ := runPlay_spec ao cfg s id p h
   obtain ⟨h1, h2, h3, h4, h5, h6⟩ := h
   -- draws, drawn and the id counter are not touched by a replay
@@ -361,7 +370,7 @@ theorem runPlay_restores_core (ao : AliasOracle) (cfg : OpCfg) (s : St) (id : Na
         | ret v => exact ⟨hd, hdn, hn⟩
         | exc t => simp only; split <;> exact ⟨hd, hdn, hn⟩
   rw [core_eq_iff]
-  exact ⟨hen, by rw [i1, h1], by rw [i2, h2], by rw [i3, h3], by rw [i4, h4], by rw [i5, h5], by rw [i6, h6],
+  exact ⟨hen hns, by rw [i1, h1], by rw [i2, h2], by rw [i3, h3], by rw [i4, h4], by rw [i5, h5], by rw [i6, h6],
     hrest.1, hrest.2.1, hrest.2.2, hstore⟩
 
 end PlaybackModel.Recorder
